@@ -12,6 +12,7 @@ import ALV.Lemmas.C20Zcross
 import ALV.Lemmas.C20Unwrap
 import ALV.Lemmas.C20Call
 import ALV.Lemmas.C20Causal
+import ALV.Lemmas.C20Env
 import ALV.Gen.C20Defaults
 import ALV.Common.Audit
 
@@ -59,6 +60,29 @@ theorem maverage_length (size : Nat) (hs : 0 < size) (zero : K) (xs : List K) :
     (maverageDeque size zero xs).length = xs.length := by
   rw [maverage_deque_eq_spec size hs]; simp [mavgSpec]
 
+/-- **C20.1f** "earlier samples taken as the ZERO VALUE", for a non-zero `zero`: every strategy
+starts from a window FULL of `zero` — on an input that stays at `zero` the output stays at `zero`
+(not at `zero/size`, `zero·k/size`, …), and the first output of any input is
+`((size−1)·zero + x[0]) / size`. -/
+theorem maverage_window_starts_full_of_zero (size : Nat) (hs : 0 < size) (zero : K) :
+    (∀ n, maverageDeque size zero (List.replicate n zero) = List.replicate n zero ∧
+          maverageRecursive size zero (List.replicate n zero) = List.replicate n zero ∧
+          maverageFir size zero (List.replicate n zero) = List.replicate n zero) ∧
+    (∀ x xs, (maverageDeque size zero (x :: xs)).head? =
+        some ((((size - 1 : Nat) : K) * zero + x) / (size : K)) ∧
+      (maverageRecursive size zero (x :: xs)).head? = (maverageDeque size zero (x :: xs)).head? ∧
+      (maverageFir size zero (x :: xs)).head? = (maverageDeque size zero (x :: xs)).head?) := by
+  have h0 : (size : K) ≠ 0 := Nat.cast_ne_zero.mpr (by omega)
+  constructor
+  · intro n
+    rw [maverage_deque_eq_spec size hs, maverage_recursive_eq_spec size hs, maverage_fir_eq_spec size hs,
+      mavgSpec_eq_from size hs, mavgFrom_const size hs h0]
+    exact ⟨rfl, rfl, rfl⟩
+  · intro x xs
+    rw [maverage_deque_eq_spec size hs, maverage_recursive_eq_spec size hs, maverage_fir_eq_spec size hs,
+      mavgSpec_eq_from size hs, mavgFrom_first]
+    exact ⟨rfl, rfl, rfl⟩
+
 end maverage
 
 /-! ### accumulate -/
@@ -80,6 +104,16 @@ theorem accumulate_z_eq_spec (xs : List K) : accumulateZ 0 xs = accSpec xs := by
   | cons x rest =>
     have h := accZLoop_eq (x :: rest) (finit [1] [-1] (0 : K)) 0 (by simp [finit]) (by simp [finit])
     simp only [accumulateZ, frun, h, accLoop, accumulateFunc, zero_add]
+
+/-- **C20.2c** `accumulate.z` called with a memory value `zero`: the running sums start at `zero`
+(`y[n] = zero + x[0] + … + x[n]`). -/
+theorem accumulate_z_memory (zero : K) (xs : List K) :
+    accumulateZ zero xs = (accSpec xs).map (zero + ·) := by
+  rw [← accumulate_z_eq_spec]
+  have h := accZLoop_eq xs (finit [1] [-1] zero) zero (by simp [finit]) (by simp [finit])
+  have h' := accZLoop_eq xs (finit [1] [-1] (0 : K)) 0 (by simp [finit]) (by simp [finit])
+  simp only [accumulateZ, frun, h, h']
+  simpa using accLoop_shift zero 0 xs
 
 end accumulate
 
@@ -132,6 +166,146 @@ theorem envelope_nonneg (g r : K) (hg : 0 ≤ g) (hr : 0 ≤ r) (xs : List K) :
     exact mul_self_nonneg y
 
 end amdf
+
+/-! ### the envelope on the model the driver runs: `lowpass(cutoff)` is the C13 one-pole design
+
+`envelopePoleCall` (generic over `TrigField`; the driver runs it at `Float`) builds the low-pass with
+`ALV.C13.lowpassPole` — the object property C13's theorems are about — and runs the direct-form loop
+on its coefficient lists.  At `ℝ`, for EVERY cutoff (no hypothesis: `x = 2 − cos c ≥ 1` always): -/
+section envelopePole
+open ALV.C13
+
+/-- **C20.4c** the design the envelope uses IS C13's `lowpass.pole` (numerator, denominator without
+`a0 = 1`), for every number type — so C13's contracts (unit DC gain, half power at the cutoff, pole
+`R` inside the unit circle) speak about the filter the envelope runs. -/
+theorem envelope_design_is_C13_lowpass {α : Type} [TrigField α] [ZeroTest α] (c : α) :
+    poleDesign c = ((lowpass .pole c).num, (lowpass .pole c).den.drop 1) := rfl
+
+/-- **C20.4d** each envelope strategy is the documented low-pass of `|x|` or `x²`: the one-pole
+recursion `y[n] = (1 − R)·u[n] + R·y[n−1]`, `y[−1] = 0`, with `u = |x|` (`abs`), `u = x²` (`squared`),
+the square root of the latter (`rms`, also the dictionary default), `R = x − √(x² − 1)`,
+`x = 2 − cos(cutoff)`, and cutoff `π/512` when omitted.  Every strategy, every cutoff, every input. -/
+theorem envelope_pole_eq_spec (s : Option EnvStrategy) (cutoff : Option ℝ) (xs : List ℝ) :
+    envelopePoleCall s cutoff xs = envelopeSpec s cutoff xs := by
+  have e : (dnum (TrigField.pi : ℝ) Dflt.envelope_cutoff : ℝ) = TrigField.pi / TrigField.ofInt 512 := by
+    simp [dnum, DExpr.eval, Dflt.envelope_cutoff]
+  have key : ∀ (c : ℝ) (us : List ℝ), frun (poleDesign c).1 (poleDesign c).2 0 us =
+      onePoleFrom (TrigField.ofInt 1 - poleRadius c) (poleRadius c) (TrigField.ofInt 0) us := by
+    intro c us
+    rw [poleDesign_real, poleRadius_real]
+    simp only [TrigField.real_ofInt, Int.cast_one, Int.cast_zero]
+    split_ifs with h
+    · rw [h]; exact frun_onePole_nil _ us
+    · exact frun_onePole _ _ us
+  have ha : ∀ us : List ℝ, us.map absG = us.map TrigField.abs := by
+    intro us; apply List.map_congr_left; intro x _; exact absG_eq_abs x
+  unfold envelopePoleCall envelopeCall envelopeSpec
+  simp only [e, EnvStrategy.dflt]
+  cases s.getD EnvStrategy.rms <;>
+    simp only [envelopeAbs, envelopeSquared, key, ha]
+
+/-- **C20.4e** the same in plain real terms, for the three strategies at a given cutoff. -/
+theorem envelope_pole_recursions (c : ℝ) (xs : List ℝ) :
+    let R := (2 - Real.cos c) - Real.sqrt ((2 - Real.cos c) ^ 2 - 1)
+    envelopePoleCall (some .abs) (some c) xs = onePoleFrom (1 - R) R 0 (xs.map fun x => |x|) ∧
+    envelopePoleCall (some .squared) (some c) xs = onePoleFrom (1 - R) R 0 (xs.map fun x => x ^ 2) ∧
+    envelopePoleCall (some .rms) (some c) xs =
+      (onePoleFrom (1 - R) R 0 (xs.map fun x => x ^ 2)).map Real.sqrt ∧
+    envelopePoleCall none (some c) xs = envelopePoleCall (some .rms) (some c) xs := by
+  have hR : poleRadius c = (2 - Real.cos c) - Real.sqrt ((2 - Real.cos c) ^ 2 - 1) := by
+    rw [poleRadius_real]; rfl
+  have hsq : ∀ us : List ℝ, (us.map fun x => x * x) = us.map fun x => x ^ 2 := by
+    intro us; apply List.map_congr_left; intro x _; ring
+  simp only [envelope_pole_eq_spec]
+  simp only [envelopeSpec, Option.getD_some, Option.getD_none, hR, hsq, TrigField.real_ofInt,
+    Int.cast_one, Int.cast_zero]
+  refine ⟨?_, ?_, ?_, ?_⟩ <;> first | rfl | trivial
+
+/-- **C20.4f** the default cutoff is `π/512`, a cutoff inside `(0, π)`. -/
+theorem envelope_pole_default_cutoff (s : Option EnvStrategy) (xs : List ℝ) :
+    envelopePoleCall s none xs = envelopePoleCall s (some (Real.pi / 512)) xs ∧
+    0 < Real.pi / 512 ∧ Real.pi / 512 < Real.pi := by
+  refine ⟨?_, by positivity, ?_⟩
+  · simp only [envelope_pole_eq_spec, envelopeSpec, Option.getD_none, Option.getD_some,
+      TrigField.real_pi, TrigField.real_ofInt]
+    norm_num
+  · have := Real.pi_pos
+    linarith
+
+/-- **C20.4g** the pole: `0 < R ≤ 1` for every cutoff, `R < 1` and DC gain exactly 1 for a cutoff in
+`(0, π)`; in the time domain the response to a constant `|x| = u` is `u·(1 − R^(n+1))` (it tends to
+`u`: unit DC gain); all outputs of `abs` / `squared` are `≥ 0`, so the `rms` square root is real. -/
+theorem envelope_pole_contract (c : ℝ) :
+    (0 < poleRadius c ∧ poleRadius c ≤ 1) ∧
+    (0 < c → c < Real.pi → poleRadius c < 1 ∧ dcGain (lowpassPole c) = 1) ∧
+    (∀ (u : ℝ) (n : Nat), 0 ≤ u → envelopePoleCall (some .abs) (some c) (List.replicate n u) =
+      (List.range n).map fun k => u * (1 - poleRadius c ^ (k + 1))) ∧
+    (∀ xs : List ℝ, (∀ y ∈ envelopePoleCall (some .abs) (some c) xs, 0 ≤ y) ∧
+      (∀ y ∈ envelopePoleCall (some .squared) (some c) xs, 0 ≤ y)) := by
+  have hp := envPole_pos c
+  have hl := envPole_le_one c
+  refine ⟨by rw [poleRadius_real]; exact ⟨hp, hl⟩, ?_, ?_, ?_⟩
+  · intro h0 h1
+    rw [poleRadius_real, lowpassPole_eq]
+    exact ⟨envPole_lt_one c h0 h1, onePoleLP_dc _ (envPole_lt_one c h0 h1).ne⟩
+  · intro u n hu
+    rw [envelope_pole_eq_spec]
+    simp only [envelopeSpec, Option.getD_some, TrigField.real_ofInt, Int.cast_one, Int.cast_zero,
+      List.map_replicate, TrigField.real_abs, abs_of_nonneg hu]
+    have := onePoleFrom_const (poleRadius c) u n 0
+    simpa using this
+  · intro xs
+    have hd := poleDesign_real c
+    constructor
+    · intro y hy
+      have hx : ∀ x ∈ xs.map (absG : ℝ → ℝ), 0 ≤ x := by
+        intro x hx; obtain ⟨z, _, rfl⟩ := List.mem_map.mp hx
+        rw [absG_eq_abs]; exact abs_nonneg z
+      simp only [envelopePoleCall, envelopeCall, Option.getD_some, envelopeAbs, hd] at hy
+      split_ifs at hy with h
+      · rw [frun_onePole_nil] at hy
+        rw [← frun_onePole] at hy
+        exact onePole_nonneg 0 _ (le_refl 0) hp.le _ hx _ (by simp [finit]) ⟨0, by simp [finit], le_refl _⟩ y hy
+      · exact onePole_nonneg _ _ (by linarith) hp.le _ hx _ (by simp [finit]) ⟨0, by simp [finit], le_refl _⟩ y hy
+    · intro y hy
+      have hx : ∀ x ∈ xs.map (fun x : ℝ => x * x), 0 ≤ x := by
+        intro x hx; obtain ⟨z, _, rfl⟩ := List.mem_map.mp hx
+        exact mul_self_nonneg z
+      simp only [envelopePoleCall, envelopeCall, Option.getD_some, envelopeSquared, hd] at hy
+      split_ifs at hy with h
+      · rw [frun_onePole_nil] at hy
+        rw [← frun_onePole] at hy
+        exact onePole_nonneg 0 _ (le_refl 0) hp.le _ hx _ (by simp [finit]) ⟨0, by simp [finit], le_refl _⟩ y hy
+      · exact onePole_nonneg _ _ (by linarith) hp.le _ hx _ (by simp [finit]) ⟨0, by simp [finit], le_refl _⟩ y hy
+
+/-- **C20.4h** a TIME-VARYING cutoff (`envelope.*(sig, cutoff=<stream>)`): the pole follows the cutoff
+sample by sample, `y[n] = (1 − R(c[n]))·u[n] + R(c[n])·y[n−1]`, as long as both streams last; `R(c)` is the
+pole of C13's `lowpass.pole` at `c` (the same expression, for every number type). -/
+theorem envelope_var_eq_spec (s : Option EnvStrategy) (cs xs : List ℝ) :
+    envelopeVarCall s cs xs = envelopeVarSpec s cs xs ∧
+    (envelopeVarCall s cs xs).length = min cs.length xs.length := by
+  have ha : ∀ us : List ℝ, us.map absG = us.map TrigField.abs := by
+    intro us; apply List.map_congr_left; intro x _; exact absG_eq_abs x
+  have h0 : ∀ cs us : List ℝ, envVarLoop 0 cs us = onePoleVarFrom (TrigField.ofInt 0) (cs.map poleRadius) us := by
+    intro cs us; rw [envVarLoop_real]; simp
+  unfold envelopeVarCall envelopeVarSpec
+  simp only [EnvStrategy.dflt]
+  cases s.getD EnvStrategy.rms <;>
+    simp only [h0, ha, onePoleVarFrom_length, List.length_map, and_self]
+
+theorem envelope_var_pole_is_C13 {α : Type} [TrigField α] [ZeroTest α] (c : α) :
+    lowpassPole c = C13.mk [c1 - polePoint c] [c1, -polePoint c] := rfl
+
+/-- **C20.4i** a cutoff stream that stays at `c` (and lasts as long as the input) is the constant cutoff `c`. -/
+theorem envelope_var_constant (s : Option EnvStrategy) (c : ℝ) (n : Nat) (xs : List ℝ) (h : xs.length ≤ n) :
+    envelopeVarCall s (List.replicate n c) xs = envelopePoleCall s (some c) xs := by
+  rw [(envelope_var_eq_spec s _ xs).1, envelope_pole_eq_spec]
+  unfold envelopeVarSpec envelopeSpec
+  simp only [Option.getD_some, List.map_replicate, TrigField.real_ofInt, Int.cast_zero, Int.cast_one]
+  cases s.getD EnvStrategy.rms <;> simp only [] <;>
+    rw [onePoleVarFrom_const _ _ n _ (by simpa using h)]
+
+end envelopePole
 
 /-! ### clip -/
 section clip
@@ -608,6 +782,58 @@ theorem rat_calls (md step h fs : Option Rat) (low high : Arg Rat) (xs : List Ra
     R.zcrossCall (h.map some) (fs.map some) xs = .ok (R.zcross (h.getD 0) (fs.getD 0) xs) :=
   ⟨unwrapCall_eq R.fl piQ md step xs, clipCall_eq low high xs, (zcrossCall_eq h fs xs).1⟩
 
+/-- every other `Rat` call-layer term the driver runs (`maverage_call`, `accumulate_call`, `amdf_call`,
+`envelope`) is the generic definition at `Rat`, hence its defining formula — for EVERY memory value
+`zero`, given or omitted: `maverage[s](size)(sig, zero)` is the mean of the last `size` samples of
+the `zero`-extended input for every strategy and for the default `maverage(size)`; `amdf` likewise;
+`accumulate.z(sig, zero=z)` gives `z +` the running sums. -/
+theorem rat_calls_memory (s : Option MavgStrategy) (sa : Option AccStrategy) (size lag : Nat)
+    (hs : 0 < size) (zero : Option Rat) (b a xs : List Rat) :
+    R.maverageCall s size zero xs = maverageCall s size zero xs ∧
+    R.maverageCall s size zero xs = R.mavgSpec size (zero.getD 0) xs ∧
+    R.amdfCall lag size zero xs = amdfCall lag size zero xs ∧
+    R.amdfCall lag size zero xs = R.amdfSpec lag size (zero.getD 0) xs ∧
+    R.accumulateCall sa zero xs = accumulateCall sa zero xs ∧
+    R.accumulateCall sa none xs = R.accSpec xs ∧
+    R.accumulateCall (some .z) zero xs = (R.accSpec xs).map (zero.getD 0 + ·) ∧
+    R.envelopeAbs b a xs = frun b a 0 (xs.map fun x => |x|) ∧
+    R.envelopeSquared b a xs = frun b a 0 (xs.map fun x => x ^ 2) := by
+  refine ⟨rfl, (maverageCall_eq_spec s size hs zero xs).1, rfl, (amdfCall_eq_spec lag size hs zero xs).1,
+    rfl, (accumulateCall_eq_spec sa xs).1, ?_, (envelope_by_definition b a xs).1,
+    (envelope_by_definition b a xs).2⟩
+  have e : (zero.getD (dnum 0 Dflt.filter_zero) : Rat) = zero.getD 0 := by
+    cases zero <;> simp [dnum, DExpr.eval, Dflt.filter_zero]
+  show accumulateZ (zero.getD (dnum 0 Dflt.filter_zero)) xs = _
+  rw [e]
+  exact accumulate_z_memory _ xs
+
+/-- **C20.7e** `unwrap` on EXACT inputs is exact: over ℚ (Fraction / int samples, any step > 0 —
+denominators that are no power of two, jumps beyond 2⁵³) every output differs from its input by an
+integer multiple of `step`, with no tolerance; and the outputs are the cumulative-correction spec. -/
+theorem rat_unwrap_exact (md step : Rat) (hs : 0 < step) (xs : List Rat) :
+    (R.unwrap md step xs).length = xs.length ∧
+    (∀ n, n < xs.length → ∃ k : ℤ, (R.unwrap md step xs).getD n 0 = xs.getD n 0 + (k : Rat) * step) ∧
+    R.unwrap md step xs = R.unwrapSpecRec md step xs :=
+  ⟨(unwrap_step_multiples R.fl ratFloor_isFloor md step hs xs).1,
+   (unwrap_step_multiples R.fl ratFloor_isFloor md step hs xs).2,
+   (unwrap_eq_spec R.fl ratFloor_isFloor md step hs xs).trans (unwrapSpecRec_eq_spec R.fl md step xs).symm⟩
+
+/-- the `Float` terms the driver runs (binary floats right at π; the envelope) are the SAME generic
+definitions the theorems are about, instantiated at `Float` with `Float.floor`, the double `math.pi`,
+`Float.sqrt` and the C13 design evaluated in doubles. -/
+theorem float_calls (md step low high : Arg Float) (s : Option EnvStrategy) (cutoff : Option Float)
+    (b a xs : List Float) :
+    F.unwrapCall md step xs = unwrapCall Float.floor floatPi md step xs ∧
+    F.clipCall low high xs = clipCall low high xs ∧
+    F.envelopePoleCall s cutoff xs = envelopePoleCall s cutoff xs ∧
+    F.envelopePoleCall s cutoff xs =
+      envelopeCall (fun c => ((C13.lowpass .pole c).num, (C13.lowpass .pole c).den.drop 1)) Float.sqrt floatPi
+        s cutoff xs ∧
+    F.envelopeSpec s cutoff xs = envelopeSpec s cutoff xs ∧
+    F.envelopeVarCall s a xs = envelopeVarCall s a xs ∧ F.envelopeVarSpec s a xs = envelopeVarSpec s a xs ∧
+    F.envelopeAbs b a xs = envelopeAbs b a xs ∧ F.envelopeSquared b a xs = envelopeSquared b a xs :=
+  ⟨rfl, rfl, rfl, rfl, rfl, rfl, rfl, rfl, rfl⟩
+
 /-! ### causality: the first `n` outputs depend on the first `n` inputs only
 
 An endless input is read through `take` / `islice`; the model is given the samples that were read.
@@ -670,6 +896,21 @@ example : (0 : Rat) < 3 ∧ (1 : Rat) ≤ 5/4 ∧ (5/4 : Rat) < 3 / 2 ∧
     R.unwrap 1 3 [0, 6/5, 5, 4] = R.unwrap (5/4) 3 [0, 6/5, 5, 4] := by decide +kernel
 example : (R.unwrap 1 2 ([1, 3/2, -2] ++ [5/4, 7])).take 3 = R.unwrap 1 2 [1, 3/2, -2] ∧
     (R.zcross 1 0 ([1/2, 2] ++ [-1/2, -3, 5])).take 2 = R.zcross 1 0 [1/2, 2] := by decide +kernel
+
+/- non-zero memory: every strategy starts from a window full of `zero = 2` -/
+example : (0 < 3) ∧ R.maverageCall none 3 (some 2) [2, 2, 5] = [2, 2, 3] ∧
+    R.maverageCall (some .recursive) 3 (some 2) [2, 2, 5] = [2, 2, 3] ∧
+    R.maverageCall (some .fir) 3 (some 2) [2, 2, 5] = [2, 2, 3] ∧
+    R.amdfCall 1 2 (some 2) [2, 5] = [1, 3/2] ∧
+    R.accumulateCall (some .z) (some 2) [1, 2, 3] = [3, 5, 8] := by decide +kernel
+/- exact unwrap: a step with denominator 3, a jump beyond 2^53 -/
+example : (0 : Rat) < 1/3 ∧ R.unwrap (1/7) (1/3) [0, 5/7, 1/2] = [0, 1/21, 1/6] ∧
+    R.unwrap 1 3 [0, 2^60 + 1, 2^60 + 2] = [0, -1, 0] := by decide +kernel
+/- the envelope hypotheses: the default cutoff lies in (0, π) -/
+example : (0 : ℝ) < Real.pi / 512 ∧ Real.pi / 512 < Real.pi :=
+  ⟨by positivity, by have := Real.pi_pos; linarith⟩
+example : onePoleFrom (1 - 1/2 : Rat) (1/2) 0 [1, 1, 1] = [1/2, 3/4, 7/8] := by decide +kernel
+example : ([1, -2] : List ℝ).length ≤ 3 := by simp
 
 end ALV.Props.C20
 
